@@ -55,8 +55,7 @@ Proof.
   assert (N2 : not_stalled s2 i o = 0).
   { unfold not_stalled, s2, set_conn. cbn. rewrite (not_stalled_sum_same_entries _ _ c c2); [exact Hn| apply get_conn_nth; exact G | reflexivity]. }
   assert (Hov : 0 < overlapped).
-  { pose proof params_ok_now as P. unfold params_ok in P. repeat (apply andb_prop in P; destruct P as [P ?]).
-    match goal with K : (0 <? overlapped) = true |- _ => apply N.ltb_lt in K; exact K end. }
+  { exact overlapped_pos. }
   destruct (request_enabled s2 p c2 i o l G2 eq_refl Hu V Hh Hc Hw Hf Ho Hla N2 Hov) as (s3 & A3).
   assert (D2 : dint x2 p = true).
   { unfold dint, dl_get, x2, x1, set_dl. cbn. rewrite nth_set_nth_same by assumption. reflexivity. }
